@@ -215,7 +215,7 @@ def e3_capacity(F, R, M, add_id, rule='E3', rule1='E1'):
     # the form that was admitted is the form that is written: the indirect writer (admitted with room for ONE descriptor)
     # never reaches the direct writer, which takes one descriptor per buffer
     forms = set(e[2] for p in paths if err_variant(p.ret) == 'Ok' for e in p.effects if e[0] == 'call' and e[2] in F.bodies and F.handwritten(F.bodies[e[2]])
-                and has_loop(F.bodies[e[2]]))
+                and has_loop_deep(F, F.bodies[e[2]]))
     ind_w = set(f for f in forms if is_indirect_callee(f))
     dir_w = forms - ind_w
     for iw in sorted(ind_w):
